@@ -126,7 +126,7 @@ def run_prot(prop, tier, seed, fail=False):
     if True:
         # Result-returning constructors under refusal / plain
         for n in protfam.LENS:
-            for ctor in ("fsl:%d" % n, "fsro:%d" % n, "newlocked", "genlocked", "newrolocked", "genrolocked", "serde:json:%d" % n, "serde:bincode:%d" % n, "stacklock"):
+            for ctor in ("fsl:%d" % n, "fsro:%d" % n, "newlocked", "genlocked", "newrolocked", "genrolocked", "serde:json:%d" % n, "serde:bincode:%d" % n, "stacklock", "defaultlocked"):
                 for k in ([1, 2, 3, 1001, 11001, 22002] if fail else [0]):
                     pre = ["failfrom:%d" % k] if k else []
                     for kind in ("bytes", "arr") if n in protfam.ARR_LENS else ("bytes",):
@@ -140,7 +140,7 @@ def run_prot(prop, tier, seed, fail=False):
         res.count(c.cls)
         i = impl.get(c.id, ["missing"])[0]
         m = model.get(c.id, ["n/a"])[0]
-        if "fillfrom:" in c.line:      # suffix fills / serde decoding are not operations of the Lean model: judged by the predicate alone
+        if "fillfrom:" in c.line or "defaultlocked" in c.line:      # suffix fills / serde decoding are not operations of the Lean model: judged by the predicate alone
             m = "n/a"
         if m == "bad-op":
             m = "n/a"; res.extra["model_unsupported"] = res.extra.get("model_unsupported", 0) + 1
@@ -206,6 +206,13 @@ def run_prot(prop, tier, seed, fail=False):
                          ["new", "fill:a5", "lock", "failsys", "resize:%d" % (n + 4096), "fill:a7", "ro", "clone", "drop", "drop@1"],
                          ["new", "fill:a5", "failsys", "clone", "drop", "failsys", "drop@1"]):
                 mp.append(Case("prot bytes %d %s" % (n, " ".join(toks)), cls="bytes/after-a-failed-syscall"))
+        # regions handed to another thread and released / reallocated there (a worker thread finishing with a key): the same wipes
+        for n in (32, 3000, 4096, 8209):
+            for toks in (["new", "fill:a5", "resize:%d" % (2 * n + 1), "fill:a6", "resize:3", "tdrop"],
+                         ["new", "fill:a5", "tresize:%d" % (3 * n + 5), "fill:a6", "tresize:7", "drop"],
+                         ["new", "fill:a5", "lock", "resize:%d" % (n + 4096), "fill:a7", "resize:9", "tdrop"],
+                         ["new", "fill:a5", "lock", "unlock", "clone", "tresize:%d@1" % (2 * n + 77), "tdrop", "tdrop@1"]):
+                mp.append(Case("prot bytes %d %s" % (n, " ".join(toks)), cls="bytes/released-on-another-thread"))
         mlines = assign_ids(mp)
         mimpl = run_engine(runner, mlines, env=env2)
         nb = 0
